@@ -162,6 +162,33 @@ func (cs *ckServer) addPartitions(P int, parts []int) error {
 	return nil
 }
 
+// addNamespace hosts partitions `hosted` of a further namespace `base` (P partitions) on the
+// running server.
+func (cs *ckServer) addNamespace(base string, P int, hosted []int, gidBase int) error {
+	raftAddr := cs.nsConf[0].RaftGroupConf.SeedNodes[0].RaftAddr
+	for _, p := range hosted {
+		nc := node.NewNSConfig()
+		nc.Name = base + "-" + strconv.Itoa(p)
+		nc.BaseName = base
+		nc.EngType = rockredis.EngType
+		nc.PartitionNum = P
+		nc.Replicator = 1
+		nc.RaftGroupConf.GroupID = uint64(gidBase + p)
+		nc.RaftGroupConf.SeedNodes = []node.ReplicaInfo{{NodeID: 1, ReplicaID: uint64(gidBase + p), RaftAddr: raftAddr}}
+		nc.ExpirationPolicy = common.WaitCompactExpirationPolicy
+		nc.DataVersion = common.ValueHeaderV1Str
+		n, err := cs.kv.InitKVNamespace(uint64(gidBase+p), nc, false)
+		if err != nil {
+			return err
+		}
+		if err := n.Start(false); err != nil {
+			return err
+		}
+		cs.nsConf = append(cs.nsConf, nc)
+	}
+	return nil
+}
+
 // waitLeaders waits until every hosted partition has elected itself.
 func (cs *ckServer) waitLeaders(d time.Duration) error {
 	deadline := time.Now().Add(d)
